@@ -91,6 +91,34 @@ static std::string handle(const std::string& line)
         std::string text = pv::unhex(t[1]);
         return "M " + parse(text, keys_of(text));
     }
+    if (t.size() >= 3 && t[0] == "S")
+    {
+        // parse, then setQuality / setParam, then what the value writes is parsed again
+        std::string text = pv::unhex(t[1]);
+        Mime::MediaType m;
+        try
+        {
+            m = Mime::MediaType::fromRaw(text.data(), text.size());
+        }
+        catch (const Http::HttpError&)
+        {
+            return "S err415";
+        }
+        if (t[2] != "-")
+            m.setQuality(Mime::Q(static_cast<Mime::Q::Type>(atoi(t[2].c_str()))));
+        std::vector<std::string> keys = keys_of(text);
+        for (size_t i = 3; i < t.size(); ++i)
+        {
+            auto eq = t[i].find('=');
+            std::string k = pv::unhex(t[i].substr(0, eq)), v = pv::unhex(t[i].substr(eq + 1));
+            m.setParam(k, v);
+            keys.push_back(k);
+        }
+        std::sort(keys.begin(), keys.end());
+        keys.erase(std::unique(keys.begin(), keys.end()), keys.end());
+        std::string r = parse(m.toString(), keys);
+        return r.compare(0, 6, "err415") == 0 ? "S err415-rewritten" : "S " + r;
+    }
     if (t.size() >= 5 && t[0] == "B")
     {
         Mime::MediaType m = t[3] == "-"
